@@ -136,7 +136,8 @@ def graph_cases(spec, extra=None, sigrev=False, sigrev_extra=None):
           o['t'] in ('SPLIT', 'EMBEDDING_LOOKUP')
           for o in g['subgraphs'][0]['ops'])):
         # same graph, signature entries listed in the opposite order
-        for kw in ({'sigorder': 'rev'}, {'ioorder': 'rev'}, {'dupout': True}):
+        for kw in ({'sigorder': 'rev'}, {'ioorder': 'rev'}, {'dupout': True},
+                   {'xout': True}):
           g2 = {'subgraphs': [dict(g['subgraphs'][0], **kw)]}
           c2 = {'ir': g2}
           if extra:
